@@ -173,18 +173,6 @@ func (in *fsInterp) inlinedHelpers() []string {
 	return out
 }
 
-// sitesIn: the file-system primitive sites lexically inside node n.
-func (in *fsInterp) sitesIn(n ast.Node) []*fsSite {
-	var out []*fsSite
-	for _, s := range in.sites {
-		if s.pos >= n.Pos() && s.pos < n.End() {
-			out = append(out, s)
-		}
-	}
-	sort.Slice(out, func(i, j int) bool { return out[i].pos < out[j].pos })
-	return out
-}
-
 // failureFlow reports, for every interpreted function, failed calls that reach a success exit.
 func failureFlow(r *Report, s *S1, in *fsInterp, results []fsFuncResult, rule string, only func(desc string) bool) (nFuncs, nForks int) {
 	for _, fr := range results {
